@@ -17,15 +17,16 @@ def _nrow(a):
 
 @contract("mlinsights/timeseries/utils.py::build_ts_X_y", "C20")
 class BuildTsXy(Contract):
-    variants = [(sr, hx, hw) for sr in (False, True) for hx in (False, True) for hw in (False, True)]
+    # the series may be a vector of reals or of integers (the docstring's own example is an integer series)
+    variants = [(sr, hx, hw, yk) for sr in (False, True) for hx in (False, True) for hw in (False, True) for yk in ("real", "int")]
 
     def setup(self, E, variant):
-        same_rows, has_x, has_w = variant
+        same_rows, has_x, has_w, ykind = variant
         n = E.size("n")
         past, delay2 = E.size("past", 1), E.size("delay2", 2)
         ncol = E.size("ncol")
         model = Obj("BaseTimeSeries", dict(past=past, delay1=1, delay2=delay2, use_all_past=False))
-        y = E.nd("y", (n,))
+        y = E.nd("y", (n,), ykind)
         X = E.nd("X", (n, ncol)) if has_x else None
         w = E.nd("w", (n,)) if has_w else None
         return dict(model=model, X=X, y=y, weights=w, same_rows=same_rows)
